@@ -78,10 +78,17 @@ def run(ctx):
                 "account lists of 0..3 entries, booleans, versions) on one configuration file; non-trivial = distinct (option, "
                 "set of sources that set it, written or not) combinations")
     r = ctx.tlc("MC_GetConfig", "SPECIFICATION Spec\nCONSTANTS\n MaxRuns = %d\n Rule = \"ref\"\nINVARIANT Precedence\nINVARIANT Persist\n"
-                "PROPERTY DryStoresNothing\nPROPERTY NoWriteStoresNothing\nPROPERTY UidStable\nPROPERTY OtherServersUntouched\n" % (2 if quick else 3),
+                "PROPERTY DryStoresNothing\nPROPERTY NoWriteStoresNothing\nPROPERTY UidStable\nPROPERTY OtherServersUntouched\n" % 2,
                 tag="mc", timeout=900)
     if r.violated:
         raise MachineryError("MC_GetConfig: %s" % r.violated)
+    if not quick:
+        # longer histories (4 runs in a row) are beyond exhaustive reach (three runs did not finish in 15 minutes): the
+        # state invariants are checked along random behaviours instead
+        r = ctx.tlc("MC_GetConfig", "SPECIFICATION Spec\nCONSTANTS\n MaxRuns = 4\n Rule = \"ref\"\nINVARIANT Precedence\nINVARIANT Persist\n",
+                    tag="mc-sim4", timeout=1500, workers=8, simulate="num=20000", depth=12)
+        if r.violated:
+            raise MachineryError("MC_GetConfig (simulation, 4 runs): %s" % r.violated)
     env = ofxget_env.Env(ctx.work + "/ofxget")
 
     def responder(url, body):
